@@ -72,7 +72,7 @@ CHECKS = {
     ),
     "C08": dict(
         technique="exhaustive enumeration of all wrapper programs (ASTs) up to a node bound and of all multiscale shapes/split dims/stage counts; oracle = hand-chained interpreter over the leaves and a nested-list routing model",
-        text="Every Composite/Inverse nesting with <=5 (thorough <=7) nodes over five pairwise non-commuting leaves is built from the library wrappers and run in both directions; outputs "
+        text="Every Composite/Inverse nesting with <=6 (thorough <=7) nodes over five pairwise non-commuting leaves is built from the library wrappers and run in both directions; outputs "
         "must be bit-identical to an interpreter that only calls the leaves' own forward/inverse in the documented order, and log-dets must be the sum over the parts. "
         "MultiscaleCompositeTransform is built for every input shape with <=3 dims of sizes 2..5, every split dimension and 1..3 stages (stage k multiplies by the k-th prime and adds 10^(k+1), so "
         "each output encodes the stages it passed) and compared with a pure-Python model of the documented routing; inverse(forward(x)) must equal x exactly; invalid combinations and the documented misuse errors are checked.",
